@@ -31,6 +31,29 @@ pub fn quiet_panics() {
             if IN_CATCH.with(|c| c.get()) == 0 {
                 eprintln!("HARNESS PANIC: {} @ {}", msg, loc);
             }
+            // panics raised inside the standard library (arithmetic overflow in `pow`, slice
+            // indexing, ...) carry a location in /rustc/...: attribute them to the first frame
+            // that belongs to the code under test or its STARK dependency
+            let mut loc = loc;
+            if loc.starts_with("/rustc/") {
+                let bt = std::backtrace::Backtrace::force_capture().to_string();
+                let owner = bt
+                    .lines()
+                    .filter_map(|l| {
+                        let l = l.trim();
+                        let name = l.splitn(2, ": ").nth(1)?;
+                        for k in ["winter_air", "winter_fri", "winter_verifier", "winter_prover", "winter_crypto", "winter_math", "winter_utils", "miden_crypto", "miden_air", "miden_core", "miden_processor", "miden_assembly", "miden_verifier", "miden_prover", "miden_stdlib"] {
+                            if name.starts_with(k) || name.starts_with(&format!("<{k}")) || name.contains(&format!(" as {k}")) {
+                                return Some(k.to_string());
+                            }
+                        }
+                        None
+                    })
+                    .next()
+                    .unwrap_or_else(|| "unknown".to_string());
+                let tail = loc.splitn(2, "/library/").nth(1).unwrap_or(&loc).to_string();
+                loc = format!("[{}]/std/{}", owner.replace('_', "-"), tail);
+            }
             LAST_PANIC.with(|p| *p.borrow_mut() = format!("{} @ {}", msg, loc));
         }));
     });
